@@ -5,7 +5,9 @@ from fractions import Fraction as F
 import multiprocessing as mp
 
 VERIF = os.path.dirname(os.path.dirname(os.path.abspath(__file__)))
-REPO_SRC = '/repo/src'
+# experiments only (seeded changes evaluated on a scratch copy while long runs use /repo): the registered commands never set these
+REPO_SRC = os.environ.get('VERIF_REPO_SRC', '/repo/src')
+OUT = os.environ.get('VERIF_OUT', VERIF)
 
 EXIT_OK, EXIT_VIOLATION, EXIT_INCONCLUSIVE = 0, 1, 2
 
@@ -71,7 +73,7 @@ class Report:
         s.distinct = set()
         s.known = load_known(pid)
         s.functions = set()
-        s.out_of_bound_paths = 0
+        s.out_of_bound_paths = 0; s.tie_only_paths = 0
         s.twins_ok = 0; s.twins = 0
 
     def add(s, r):
@@ -82,7 +84,7 @@ class Report:
         s.discharged += r.get('discharged', 0)
         s.queries += r.get('queries', 0)
         s.solver_s += r.get('solver_s', 0.0)
-        s.out_of_bound_paths += r.get('out_of_bound', 0)
+        s.out_of_bound_paths += r.get('out_of_bound', 0); s.tie_only_paths += r.get('tie_only_paths', 0)
         s.twins += r.get('twins', 0); s.twins_ok += r.get('twins_ok', 0)
         for fn in r.get('functions', ()): s.functions.add(fn)
         if r.get('skip'):
@@ -119,7 +121,7 @@ class Report:
                 'configurations': s.configs, 'paths': s.paths,
                 'obligations': s.obligations, 'discharged': s.discharged,
                 'solver_queries': s.queries, 'solver_seconds': round(s.solver_s, 2),
-                'skipped': s.skipped, 'out_of_bound_paths': s.out_of_bound_paths,
+                'skipped': s.skipped, 'out_of_bound_paths': s.out_of_bound_paths, 'paths_reachable_only_at_exact_rounding_ties (outside the claim)': s.tie_only_paths,
                 'reachability_twins': s.twins, 'reachability_twins_detected': s.twins_ok,
                 'samples': s.samples or ['(none)'],
                 'bounds': bounds, 'exhaustive': bool(exhaustive),
@@ -132,8 +134,8 @@ class Report:
             'violations': len(s.violations),
         }
         ev['coverage'].update(s.extra)
-        os.makedirs(os.path.join(VERIF, 'evidence'), exist_ok=True)
-        with open(os.path.join(VERIF, 'evidence', f'{s.pid}.json'), 'w') as f:
+        os.makedirs(os.path.join(OUT, 'evidence'), exist_ok=True)
+        with open(os.path.join(OUT, 'evidence', f'{s.pid}.json'), 'w') as f:
             json.dump(ev, f, indent=1, default=str)
         print(f"{s.pid} {s.tier}: configs={s.configs} paths={s.paths} obligations={s.obligations} discharged={s.discharged} "
               f"queries={s.queries} solver_s={s.solver_s:.1f} violations={len(s.violations)} known={sum(n for _, n in s.known_hits.values())} "
@@ -151,7 +153,7 @@ class Report:
 
 
 def write_replay(pid, v):
-    d = os.path.join(VERIF, 'replays')
+    d = os.path.join(OUT, 'replays')
     os.makedirs(d, exist_ok=True)
     blob = json.dumps(v, sort_keys=True, default=str)
     h = hashlib.sha1(blob.encode()).hexdigest()[:10]
